@@ -13,7 +13,7 @@ def optedOut (ig : IgnoreArg) : Bool := ig.getLast? == some true
 
 /-- what the property demands -/
 def shouldAccept (ig : IgnoreArg) (root : RootArg) (cert : CertKind) : Bool :=
-  optedOut ig || (cert = .valid && (root = .correctPem || root = .correctDer))
+  optedOut ig || (cert = .valid && (root = .correctPem || root = .correctDer || root = .decoyThenCorrect || root = .correctThenDecoy))
 
 theorem foldl_last (l : List Bool) (i : Bool) : l.foldl (fun _ flag => flag) i = l.getLast?.getD i := by
   induction l generalizing i with
@@ -48,10 +48,11 @@ theorem matrix (c : ClientKind) (b : Backend) (ig : IgnoreArg) (root : RootArg) 
 theorem plumbing (c : ClientKind) (b : Backend) (ig : IgnoreArg) (root : RootArg) (h : optedOut ig = false) :
     let p := tlsParams c b ig root
     p.acceptInvalidCerts = false ∧ p.acceptInvalidHostnames = false ∧ p.noVerifier = false ∧ p.buildFails = false ∧
-    (∀ ca e, rootData root = some (ca, e) → ca ∈ p.roots) := by
+    (∀ ca e, (ca, e) ∈ rootData root → ca ∈ p.roots) := by
   rw [← flag_is_last_call] at h
   cases c <;> cases b <;> cases root <;> simp_all [tlsParams, rootData, rootEffective,
-    nativeFromPem, nativeFromDer, pkiFromPemSlice]
+    nativeFromPem, nativeFromDer, pkiFromPemSlice] <;>
+  (intro ca e hce; rcases hce with ⟨h1, _⟩ | ⟨h1, _⟩ <;> simp [h1])
 
 /-- the default (flag never set) is to verify -/
 theorem default_verifies : ignoreFlag [] = false := rfl
